@@ -82,6 +82,9 @@ def value_type(e, g, node, params, fold_const, depth=0, inline_call=None):
                     out |= value_type(body, g, node, params, fold_const, depth + 1, inline_call)
                 elif isinstance(v, ast.Constant) and v.value is None:
                     continue
+                elif isinstance(v, (ast.Name, ast.Attribute)) and depth < 6:
+                    # a named function kept in the table: the call of that function
+                    out |= value_type(ast.copy_location(ast.Call(func=v, args=list(e.args), keywords=[]), e), g, node, params, fold_const, depth + 1, inline_call)
                 else:
                     out.add("?:call of table entry %s" % unparse(v)[:30])
             return out
